@@ -16,6 +16,7 @@ def run(ctx):
     late = [p for p in pos if p[0] in ("finalize", "order", "cert")]
     specs += flows.single_fault_specs("C03r", cert, late, ctx.tier, ctx.seed + 1, attempts=2, quick_stride=3)
     specs += flowcheck.prestate_specs("C03")
+    specs += flowcheck.shorter_lived_specs("C03")
     specs += flows.multi_fault_specs("C03", cert, pos, 400 if ctx.tier == "thorough" else 40, ctx.seed)
     results = flows.run_many(specs, workers=12)
     hung = [r["meta"] for r in results if any(x["hung"] for x in r["runs"])]
